@@ -1,6 +1,6 @@
 """C02 The JSON parser accepts exactly RFC 8259 - (state x character) cell tables vs the grammar."""
 import json, os
-from .. import frontend as F, ast as A, util as U, peval as P
+from .. import frontend as F, ast as A, util as U, peval as P, cfg as C
 
 EXPLANATION = ('The hand-written JSON automaton is partially evaluated cell by cell: for every parse_state handled in parse_some_ and every '
                'character value 0..255 the selected region is summarised (consume / transition / sub-parser entered / error) and compared '
@@ -374,6 +374,119 @@ def r02_3(chk, facts):
             else: chk.fail('R02.3', site, fn['file'], eff[0].line if eff else fn['l'],
                            'escape character %s: code pushes %s and does %s, RFC 8259 says %s' % (chs, pushes, got, want), {'observed': got, 'pushes': pushes}, fn['q'])
 
+def r02_5(chk, facts):
+    chk.rule('R02.5', 'first duplicate wins: json_decoder gives every keyed item its arrival index (index_++), and '
+                      'sorted_json_object::uninitialized_init keeps an item only if its name differs from its predecessor after the '
+                      '(name, index) sort', floor=12)
+    fns = [f for f in facts.functions if f['file'].endswith('json_decoder.hpp') and not f.get('dep') and f.get('body') is not None and
+           A.strip_targs(f.get('cls') or '').endswith('json_decoder')]
+    chk.require(fns, 'json_decoder member functions not found')
+    n = 0
+    for fn in U.one_per_inst(fns):
+        pushes = [c for c in A.walk_no_lambda(fn['body']) if c.get('k') == 'CXXMemberCallExpr' and A.callee_name(c) == 'emplace_back'
+                  and A.ref_name(c.get('obj')) == 'item_stack_']
+        for i, c in enumerate(pushes):
+            args = c.get('args') or []
+            if not args or not any(x.get('n') == 'name_' for x in A.walk(args[0])): continue     # unkeyed push (array element / root)
+            n += 1
+            chk.analysed(fn)
+            a1 = A.strip(args[1], casts=True) if len(args) > 1 else None
+            ok = a1 is not None and a1.get('k') == 'UnaryOperator' and a1.get('op') == '++' and a1.get('postfix') and A.ref_name(a1.get('sub')) == 'index_'
+            site = U.site(fn, 'keyed push#%d' % (i + 1))
+            if ok: chk.ok('R02.5', site, {'function': fn['q'], 'line': c.get('l'), 'index_arg': 'index_++'})
+            else:
+                chk.fail('R02.5', site, fn['file'], c.get('l'), 'keyed item pushed in %s with arrival index `%s` instead of index_++: a later duplicate '
+                         'member can sort before the first one' % (fn['n'], A.text(args[1])[:30] if len(args) > 1 else '?'), {'function': fn['q']}, fn['q'])
+    chk.require(n >= 12, 'R02.5: only %d keyed pushes found in json_decoder' % n)
+    # de-duplication loop of the sorted object
+    ui = [f for f in facts.functions if f['n'] == 'uninitialized_init' and f['file'].endswith('sorted_json_object.hpp') and not f.get('dep') and f.get('body') is not None]
+    chk.require(ui, 'sorted_json_object::uninitialized_init not found')
+    for fn in U.one_per_inst(ui):
+        chk.analysed(fn)
+        g = C.CFG(fn['body'])
+        loop_pushes = []
+        for x in A.walk_no_lambda(fn['body']):
+            if x.get('k') == 'ForStmt':
+                loop_pushes = [c for c in A.walk_no_lambda(x.get('body')) if c.get('k') == 'CXXMemberCallExpr' and A.callee_name(c) == 'emplace_back']
+        site = U.site(fn, 'dedupe loop')
+        bad = None
+        if not loop_pushes: bad = 'no emplace_back inside the de-duplication loop'
+        for c in loop_pushes:
+            n_ = g.node_of(c)
+            ok = False
+            for cond_ast, label, edge in (g.guards(n_) if n_ else []):
+                t = A.text(cond_ast)
+                cmp_ = None
+                s0 = A.strip(cond_ast)
+                if s0 is not None and s0.get('k') == 'CXXOperatorCallExpr' and s0.get('oop') in ('!=', '==') and '.name' in t and 'i - 1' in t.replace('i-1', 'i - 1'):
+                    if (s0['oop'] == '!=') == bool(label): ok = True
+            if not ok: bad = 'emplace_back in the loop is not under `item.name != items[i-1].name`'
+        if bad: chk.fail('R02.5', site, fn['file'], fn['l'], bad, None, fn['q'])
+        else: chk.ok('R02.5', site, {'function': fn['q'], 'guard': 'name != predecessor name'})
+
+def r02_7(chk, facts, rid='R02.7'):
+    chk.rule(rid, 'UTF-8 well-formedness table (Unicode Table 3-7): is_legal_utf8 rejects lead bytes 80..C1 and F5..FF, and restricts the '
+                  'second byte to A0..BF after E0, 80..9F after ED, 90..BF after F0, 80..8F after F4 and 80..BF otherwise; every '
+                  'continuation byte is tested with mask C0 == 80; trailing_bytes_for_utf8 gives 1/2/3 for C2..DF/E0..EF/F0..F4', floor=256)
+    fns = [f for f in facts.functions if f['n'] == 'is_legal_utf8' and not f.get('dep') and f.get('body') is not None]
+    chk.require(fns, 'unicode_traits::is_legal_utf8 not found')
+    fn = fns[0]
+    chk.analysed(fn)
+    inner = None; byte_id = None
+    for x in A.walk(fn['body']):
+        if x.get('k') == 'SwitchStmt':
+            c = A.strip(x.get('cond'), casts=True)
+            if c is not None and c.get('k') == 'UnaryOperator' and c.get('op') == '*' and A.ref_name(c.get('sub')) == 'it': inner = x
+        if x.get('k') == 'VarDecl' and x.get('n') == 'byte': byte_id = x.get('id')
+    chk.require(inner is not None and byte_id is not None, 'is_legal_utf8: inner switch over *it / local `byte` not found')
+    def window(lead):
+        if lead == 0xE0: return (0xA0, 0xBF)
+        if lead == 0xED: return (0x80, 0x9F)
+        if lead == 0xF0: return (0x90, 0xBF)
+        if lead == 0xF4: return (0x80, 0x8F)
+        return (0x80, 0xBF)
+    probes = sorted(set([0x7f, 0x80, 0x8f, 0x90, 0x9f, 0xa0, 0xbf, 0xc0]))
+    for lead in range(256):
+        lo, hi = window(lead)
+        bad = None
+        for b1 in probes:
+            if not (0x80 <= b1 <= 0xBF): continue      # the continuation mask test precedes the window test
+            pe = P.PEval(facts, fn, max_depth=1)
+            env = {('deref', 'it'): lead, byte_id: b1}
+            r = pe.exec_stmt(inner, env, (), 0)
+            rejected = any(e.kind == 'return' and not e.guards for e in pe.effects)
+            want = not (lo <= b1 <= hi)
+            if rejected != want:
+                bad = (b1, rejected, want); break
+        # lead byte legality (length 1 path + tail)
+        pe = P.PEval(facts, fn, max_depth=1, bind={'length': 1})
+        pe.exec_body(fn, {('deref', 'it'): lead})
+        rets = [e for e in pe.effects if e.kind == 'return' and not e.guards]
+        illegal = bool(rets) and rets[0].extra.get('value') not in (0, None) or (bool(rets) and rets[0].extra.get('value') is None and 'source_illegal' in str(rets[0].args))
+        lead_ok = rets and (rets[0].extra.get('value') == 0) == (not ((0x80 <= lead < 0xC2) or lead > 0xF4))
+        site = U.site(fn, 'lead=0x%02x' % lead)
+        if bad:
+            chk.fail(rid, site + ' second', fn['file'], inner.get('l'), 'lead byte 0x%02x, second byte 0x%02x: %s, Unicode Table 3-7 says %s (window %02X..%02X)' % (
+                lead, bad[0], 'rejected' if bad[1] else 'accepted', 'rejected' if bad[2] else 'accepted', lo, hi), {'lead': lead, 'second': bad[0]}, fn['q'])
+        elif not lead_ok:
+            chk.fail(rid, site + ' lead', fn['file'], fn['l'], 'single byte 0x%02x: legality differs from the table (80..C1 and F5..FF are illegal leads)' % lead, {'lead': lead}, fn['q'])
+        else:
+            chk.ok(rid, site, {'lead': '0x%02x' % lead, 'second_byte_window': '%02X..%02X' % (lo, hi)} if lead in (0xE0, 0xED, 0xF0, 0xF4, 0xC2) else None)
+    # continuation mask tests
+    masks = []
+    for x in A.walk(fn['body']):
+        if x.get('k') == 'BinaryOperator' and x.get('op') == '!=' and A.const(x.get('rhs')) == 0x80:
+            for y in A.walk(x.get('lhs')):
+                if y.get('k') == 'BinaryOperator' and y.get('op') == '&' and A.const(y.get('rhs')) == 0xC0: masks.append(x.get('l'))
+    if len(masks) >= 3: chk.ok(rid, U.site(fn, 'continuation masks'), {'tests': len(masks)})
+    else: chk.fail(rid, U.site(fn, 'continuation masks'), fn['file'], fn['l'], 'only %d continuation-byte tests `(b & 0xC0) != 0x80` found (3 expected)' % len(masks), None, fn['q'])
+    tabs = [v for v in facts.vars if v['n'] == 'trailing_bytes_for_utf8' and v.get('ints')]
+    chk.require(tabs, 'trailing_bytes_for_utf8 table not found')
+    t = tabs[0]['ints']
+    wrong = [i for i in range(0xC2, 0xF5) if i < len(t) and t[i] != (1 if i <= 0xDF else 2 if i <= 0xEF else 3)]
+    if len(t) == 256 and not wrong: chk.ok(rid, 'include/jsoncons/utility/unicode_traits.hpp trailing_bytes_for_utf8', {'C2..DF': 1, 'E0..EF': 2, 'F0..F4': 3})
+    else: chk.fail(rid, 'include/jsoncons/utility/unicode_traits.hpp trailing_bytes_for_utf8', tabs[0]['file'], tabs[0]['l'], 'trailing byte counts wrong for lead bytes %s' % [hex(i) for i in wrong[:6]], None, tabs[0]['q'])
+
 def run(chk, tier, only_rule=None):
     chk.explanation = EXPLANATION
     chk.not_decided = NOT_DECIDED
@@ -383,3 +496,8 @@ def run(chk, tier, only_rule=None):
     r02_6(chk, facts)
     r02_2(chk, facts)
     r02_3(chk, facts)
+    r02_5(chk, facts)
+    r02_7(chk, facts)
+    # a number or string token may straddle two chunks: the resume rule of C03 is a necessary condition of accepting the same texts
+    from . import c03
+    c03.r03_1_2(chk, facts)
